@@ -255,37 +255,43 @@ FILE_NAMES = [["ev_1.yaml", "ev_2.yaml"], ["cfg.v1", "cfg.v2"], ["eval_iou0.3", 
 
 @contextlib.contextmanager
 def named_configs_in(d):
-    """save_to_config_by_name / load_from_config_name resolve names inside the installed package; for the round trip
-    by name the two resolving helpers are pointed at the scratch directory (the package directory is never written)."""
-    import panoptica.utils.config as C
-    from pathlib import Path
+    """save_to_config_by_name / load_from_config_name resolve names relative to the installed package, which they
+    locate through the module file of panoptica.utils.filepath. For the round trip by name that module's __file__ is
+    pointed into the scratch directory, so the library's own name handling runs unchanged and the package directory is
+    never written."""
+    import panoptica.utils.filepath as FP
 
-    saved = (C.config_by_name, C.config_dir_by_name)
-    fix = lambda n: n if n.endswith(".yaml") else n + ".yaml"  # noqa: E731
-    C.config_dir_by_name = lambda name: (Path(d), fix(name))
-    C.config_by_name = lambda name: Path(d) / fix(name)
+    saved = FP.__file__
+    os.makedirs(os.path.join(d, "pkg", "utils"), exist_ok=True)
+    FP.__file__ = os.path.join(d, "pkg", "utils", "filepath.py")
     try:
-        yield
+        yield os.path.join(d, "pkg")
     finally:
-        C.config_by_name, C.config_dir_by_name = saved
+        FP.__file__ = saved
 
 
 def roundtrip(obj, cls, d, name, files=None, decoy=None, via="path"):
     if via == "name":
-        # by name: a decoy is saved and loaded under the name first, then the object itself
-        nm = (files or [name])[0]
-        with named_configs_in(d):
+        # by name: a decoy is saved and loaded under the name first, then the object itself; afterwards the decoy goes
+        # under the sibling name
+        n1, n2 = (list(files) + [None])[:2] if files else (name, None)
+        fix = lambda n: n if n.endswith(".yaml") else n + ".yaml"  # noqa: E731  (the documented completion of a name)
+        with named_configs_in(d) as pkg:
             if decoy is not None:
-                H.lib_call(decoy.save_to_config_by_name, nm)
-                H.lib_call(cls.load_from_config_name, nm)
-            H.lib_call(obj.save_to_config_by_name, nm)
-            loaded = H.lib_call(cls.load_from_config_name, nm)
+                H.lib_call(decoy.save_to_config_by_name, n1)
+                H.lib_call(cls.load_from_config_name, n1)
+            H.lib_call(obj.save_to_config_by_name, n1)
+            if decoy is not None and n2 and fix(n2) != fix(n1):
+                H.lib_call(decoy.save_to_config_by_name, n2)
+            loaded = H.lib_call(cls.load_from_config_name, n1)
             if type(loaded) is not type(obj):
                 raise Violation(f"loaded object has type {type(loaded).__name__}, saved a {type(obj).__name__}")
-            p1 = os.path.join(d, nm if nm.endswith(".yaml") else nm + ".yaml")
-            t1 = open(p1).read()
-            H.lib_call(loaded.save_to_config_by_name, nm)
-            t2 = open(p1).read()
+            found = [os.path.join(r, f) for r, _, fs in os.walk(pkg) for f in fs if f == fix(n1)]
+            if len(found) != 1:
+                raise Violation(f"save_to_config_by_name({n1!r}) did not write {fix(n1)!r} (files: {sorted(f for _, _, fs in os.walk(pkg) for f in fs)})")
+            t1 = open(found[0]).read()
+            H.lib_call(loaded.save_to_config_by_name, n1)
+            t2 = open(found[0]).read()
         if t1 != t2:
             raise Violation(f"save(load(save(x))) by name differs from save(x):\n{t1}\n---\n{t2}")
         return loaded, t1
